@@ -99,6 +99,9 @@ struct DrawOut {
     bb: Rectangle,
     r1: Rec,
     r2: Rec,
+    /// the same image drawn through the LIBRARY's `clipped(&bbox)` adapter on unbounded targets (draw_iter-only / native)
+    c1: PMap,
+    c2: PMap,
 }
 struct MoveOut {
     bb0: Rectangle,
@@ -172,7 +175,13 @@ where
     let mut r2 = R2::<T::Color>::new(bbox);
     img.draw(&mut r1).unwrap();
     img.draw(&mut r2).unwrap();
-    DrawOut { bb: img.bounding_box(), r1: r1.rec, r2: r2.rec }
+    // through the library's own clipping adapter: its `fill_contiguous` skips colours with `nth` / `skip`
+    // (iterator::contiguous::Cropped), another consumer of the image's colour stream than the recording targets
+    let mut u1 = R1::<T::Color>::unbounded();
+    let mut u2 = R2::<T::Color>::unbounded();
+    img.draw(&mut u1.clipped(&bbox)).unwrap();
+    img.draw(&mut u2.clipped(&bbox)).unwrap();
+    DrawOut { bb: img.bounding_box(), r1: r1.rec, r2: r2.rec, c1: u1.rec.map, c2: u2.rec.map }
 }
 
 fn move_on<T>(d: &T, obj: &Obj, by: Point) -> MoveOut
@@ -770,6 +779,11 @@ impl Module for M {
                     // draw_exact / sub_image_eq_cropped_image (both target implementations)
                     ctx.expect(out.r1.map == want, "C09:draw-exact-default-target", || format!("{} got {} want {}", op, out.r1.fmt_map(), fmt_map(&want)));
                     ctx.expect(out.r2.map == want, "C09:draw-exact-native-target", || format!("{} got {} want {}", op, out.r2.fmt_map(), fmt_map(&want)));
+                    // ... and through `clipped(&box)` of the library on unbounded targets: the same picture (the clip box
+                    // of an unbounded parent is the box itself)
+                    ctx.expect(out.c1 == want && out.c2 == want, "C09:draw-exact-through-clipped-adapter", || {
+                        format!("{} default {} native {} want {}", op, fmt_map(&out.c1), fmt_map(&out.c2), fmt_map(&want))
+                    });
                     // draw_stream / sub_stream (the text): every colour stream handed to fill_contiguous has exactly
                     // width x height colours for the area it is given, and carries, row-major over that area, the pixel the
                     // image shows at each point (before the target clips; R2 drains the iterator and records everything).
